@@ -46,7 +46,7 @@ FUNCS = {
 
 
 # plain function names that coincide with names in TEMP_POOL
-PLAIN_ALIAS = {"<func>f": "u", "<func>g": "v", "<func>F": "w"}
+PLAIN_ALIAS = {"<func>f": "u", "<func>g": "v", "<func>F": "w", "<func>f_": "x", "<func>kw": "y"}
 
 
 class Features:
@@ -165,7 +165,7 @@ class ScriptGen:
         self.cfg = cfg or {}
         self.unique_sites = unique_sites
         with tape.span("plain_func_names"):
-            self.plain_func_names = bool(self.F.adv_names and tape.chance(0.4, "plain_func_names"))
+            self.plain_func_names = bool(self.F.adv_names and tape.chance(0.5, "plain_func_names"))
         self.func_alias = {}
         self.site_n = 0
         self.max_ops = max_ops
